@@ -100,6 +100,16 @@ Example C05_example :
   pend s = [].
 Proof. vm_compute. repeat split. Qed.
 
+(* an interrupt inside the second executor.submit of the first batch (ntasks=3):
+   one evaluation was started; it is cancelled, the learner is told to discard *)
+Example C05_example_interrupt_in_submit :
+  let c := mkcfg Blocking 3 1 0 true false in
+  let s := reach counter c 0 [SubmitCancel 1; Shutdown []] in
+  ph s = Stopped Cancelled true /\
+  history s = [TAsk 3 [(0, 0); (1, 1); (2, 2)]; TSubmit 0 0 0; TRemove; TCancel 0] /\
+  pend s = [(0, 0)].
+Proof. vm_compute. repeat split. Qed.
+
 Print Assumptions C05_only_handed_out_once.
 Print Assumptions C05_at_most_ntasks.
 Print Assumptions C05_pending_is_in_flight.
